@@ -1060,7 +1060,10 @@ def convert_avg_pool_to_conv2d(op: Operation, arch, nng) -> Operation:
     op.name += "_conv2d"
 
     op.rounding_mode = RoundingMode.AwayZero
-    shape = [h, w, 1, op.ofm.shape[-1]]
+    # The OFM shape of the operator, not the shape of the OFM tensor: when a RESHAPE after the pool has already been
+    # bypassed the OFM tensor is the reshaped one
+    ofm_shape = op.ofm_shapes[0]
+    shape = [h, w, 1, ofm_shape.depth]
     weights = np.full(shape, 1)
     quant = QuantizationParameters(scale_f32=1 / (h * w), zero_point=0)
     # Add unit weight tensor
@@ -1077,6 +1080,7 @@ def convert_avg_pool_to_conv2d(op: Operation, arch, nng) -> Operation:
 
     # Set IFM/OFM shapes after changing op type
     op.set_ifm_ofm_shapes()
+    op.ofm_shapes[0] = ofm_shape
     return op
 
 
